@@ -33,9 +33,10 @@ CLAIMED = {
         "text": "Coq theorems (props/C04.v): for all samples (sizes >= 2, non-zero variance), all 12 option cells and every "
                 "confidence level in (0,1), every field of the regenerated Mean analysis applied to the exact aggregates equals "
                 "an independently written textbook Student/Welch/Z test on the raw observations (lib/Textbook.v); relative "
-                "interval = log-scale delta-method interval for means of equal sign",
+                "interval = log-scale delta-method interval for means of equal sign; composed with C01 and C12: the result rows of "
+                "a builder's query plan, read back by _get_aggregates, give the same analysis as the exact aggregates",
         "note": "trusted: Coq kernel, stdlib real axioms, translator, distribution laws L1-L6 as hypotheses (satisfiable), "
-                "C01 for 'aggregates = exact sample statistics'; floats outside the theorem (oracle tolerance 1e-7)",
+                "engines evaluate plans as lib/PlanSem reads them (C01); floats outside the theorem (oracle tolerance 1e-7)",
         "technique": "Coq proof: translator-generated model = independent textbook specification; exact differential; "
                      "scipy reference oracle on the public API",
         "design": "DESIGN.md section 5, C04",
@@ -117,7 +118,7 @@ CLAIMED = {
         "text": "Coq theorems (props/C12.v): the pair functions and the ValueError guard regenerated from Experiment.analyze give "
                 "exactly the documented pairs (control vs every other variant / all pairs with the smaller id as control, no "
                 "duplicates, guard iff not exactly one pair without all_variants); a Mean/RatioOfMeans entry depends only on the "
-                "statistics the metric declared. Differential: every entry equals the metric analysed alone, on five backends, "
+                "statistics the metric declared (count, means, variances, covariances of pairs of different columns). Differential: every entry equals the metric analysed alone, on five backends, "
                 "with int/str/bool ids; declared statistics/rows of user-defined metrics are exact; solve_power likewise",
         "note": "trusted: Coq kernel + real axioms (agree theorem), exp2coq pair translator, variant ids as integers in the model; "
                 "dispatch and the non-Mean metrics only through the differential",
